@@ -253,10 +253,28 @@ def generated_data_tx(r, rate, conf, n, preambles, cc, sap, payload_kind="random
                 return None
 
         userdata = _Wrapped()
+    if r.random() < 0.15:
+        # the sender first assembles a packet by hand from the generator's public building blocks, with the same parameters, and treats what
+        # they return as its own (containers extended, reversed, emptied in place) -- then asks for the complete transmission
+        try:
+            db, _poc = TransmissionGenerator.generate_data_bursts(packet_type=rate_class(rate), userdata=payload, colour_code=cc, is_confirmed=conf)
+            hb = TransmissionGenerator.generate_data_header_burst(data_header=hdr)
+            pre = TransmissionGenerator.generate_csbk_preambles(source_address=src, target_address=dst, colour_code=cc, num_of_preambles=preambles,
+                                                                num_of_following_data_blocks=len(db) + 1)
+            pre.append(hb)
+            pre.extend(db)
+            if r.random() < 0.5:
+                pre.reverse()
+            if r.random() < 0.5:
+                del pre[: len(pre) // 2]
+            db.clear()
+        except Exception:
+            pass
     bursts = TransmissionGenerator.generate_full_data_transmission(packet_type=rate_class(rate), userdata=userdata, data_header=hdr,
                                                                    csbk_count=preambles, colour_code=cc)
     tags = ["pre"] * preambles + ["hdr"] + ["rate"] * nb
-    assert len(tags) == len(bursts), (len(tags), len(bursts))
+    if len(tags) != len(bursts):
+        raise ValueError(f"generate_full_data_transmission returned {len(bursts)} bursts for {preambles} preambles + 1 header + {nb} data blocks")
     wire = [(b.as_bytes(), "D", t) for b, t in zip(bursts, tags)]
     meta = {"payload": payload.hex(), "poc": poc, "conf": conf, "rate": rate, "nblocks": nb, "preambles": preambles, "cc": cc, "n": n,
             "sap": sap.name, "fmt": fmt}
@@ -324,6 +342,24 @@ def make_recorder_class():
     return Rec
 
 
+def make_forwarder(rec):
+    """an observer object that nothing but the library refers to (the application registered `Watcher(observers=[Forwarder(sink)])` inline):
+    it forwards every notification to the recorder the harness reads"""
+    from okdmr.dmrlib.transmission.transmission_observer_interface import TransmissionObserverInterface
+
+    class Forwarder(TransmissionObserverInterface):
+        def transmission_started(self, transmission_type):
+            return rec.transmission_started(transmission_type)
+
+        def data_transmission_ended(self, transmission_header, blocks):
+            return rec.data_transmission_ended(transmission_header, blocks)
+
+        def voice_transmission_ended(self, voice_header, blocks):
+            return rec.voice_transmission_ended(voice_header, blocks)
+
+    return Forwarder()
+
+
 class _AsciiSink(io.TextIOWrapper):
     def __init__(self):
         super().__init__(io.BytesIO(), encoding="ascii", errors="strict", write_through=True)
@@ -369,13 +405,19 @@ class Receiver:
         if knobs.get("second_observer", True):
             self.second = Rec("second", self.seam)
             obs.append(self.second)
+        if knobs.get("inline_observers"):
+            obs = [make_forwarder(o) for o in obs]  # observer objects owned by nobody but the library
         self.watcher = TransmissionWatcher(observers=obs)
+        del obs
+        if knobs.get("inline_observers"):
+            res.fault("observers_referenced_only_by_the_library")  # (reference counting frees an unreferenced object at once: no collection pass needed)
         # what the library prints goes to a sink; in a third of the runs the sink is an ASCII-only text stream, like stdout under LC_ALL=C
         self.sink = io.StringIO() if knobs.get("entropy_seed", 1) % 3 else _AsciiSink()
         self.wd = Watchdog(5.0)
         self.slots = {}
         self.log = core.EventLog()
         self.n = 0
+        self.reuse_parsed = {} if knobs.get("reuse_parsed") else None
 
     def tracker(self, term, ts):
         t = self.watcher.terminals.get(term)
@@ -383,6 +425,18 @@ class Receiver:
 
     def parse(self, data, bt):
         """returns Burst or None if the 33 bytes are not a parseable burst (outside the property's domain)"""
+        if self.reuse_parsed is not None:
+            # an application that parses each distinct burst once and hands the SAME Burst object to the tracker whenever those octets arrive
+            # again (duplicates, replays of a recording, repeated idle bursts)
+            key = (bytes(data), bt)
+            if key not in self.reuse_parsed:
+                self.reuse_parsed[key] = self._parse(data, bt)
+            else:
+                self.res.fault("same_burst_object_delivered_again")
+            return self.reuse_parsed[key]
+        return self._parse(data, bt)
+
+    def _parse(self, data, bt):
         try:
             old = sys.stdout
             sys.stdout = self.sink
@@ -438,9 +492,10 @@ class Receiver:
             bits = "as_bits raised " + type(e).__name__
         return (n, getattr(getattr(x, "packet_type", None), "name", None), x.data.hex() if isinstance(getattr(x, "data", None), (bytes, bytearray)) else None, bits)
 
-    def feed(self, term, ts, data, bt, op_i):
-        """deliver one burst; returns dict describing what happened, or None if unparseable"""
-        b = self.parse(data, bt)
+    def feed(self, term, ts, data, bt, op_i, parsed=False):
+        """deliver one burst; returns dict describing what happened, or None if unparseable.  `parsed`: the Burst object (or None) when the
+        application parsed its input ahead of processing it (knob parse_ahead), False when it parses each burst right before feeding it"""
+        b = self.parse(data, bt) if parsed is False else parsed
         if b is None:
             return None
         self.n += 1
